@@ -28,7 +28,9 @@ EXPLANATION = (
     " R10 holds on EVERY way the provider's path argument gets its value."
     " R2: one clock per deadline test, monotonic for the local lock; R5: fallback mode is claimed only after an O_EXCL create, release() clears the held flag; R10: the provider path IS the resolver's result; R11: age = time.time() - mtime."
     " (R15) timeouts / leases are never defaulted or tested by truthiness (timeout 0 stays 0); (R16) lock ages use total_seconds(), never timedelta.seconds alone; R3 checks the lease test's units (timedelta(seconds=lease) vs timedelta(lease)); R5 requires EVERY path to the release DELETE to pass the read-back-equal edge; R8 accepts a dataclass field(default_factory=uuid4...) owner token."
-    " R3 reads a shared lease-age helper that answers `age if age > lease else None` (None-correlation with the caller's test); R5 decides 'unlink only in O_EXCL fallback mode' by scenario over the two module flags when the mode is derived instead of tracked.")
+    " R3 reads a shared lease-age helper that answers `age if age > lease else None` (None-correlation with the caller's test); R5 decides 'unlink only in O_EXCL fallback mode' by scenario over the two module flags when the mode is derived instead of tracked."
+    ' R5 accepts a second sound protocol for the flock-mode lock file: it may be unlinked on release if no unlock / close can precede the unlink AND every acquisition re-validates, after winning the flock, that the inode it locked is still the one the path names (fstat vs stat, st_ino).'
+)
 NOT_DECIDED = "kernel / S3 semantics, interleavings, numeric timeout bounds"
 
 
@@ -814,8 +816,33 @@ def r5(ctx: Ctx, rid: str = "C19.R5") -> None:
                     verdicts.append((not undec_) and u.id not in reached_)
                 r0_, u0_ = scenario_walk(ctx, rel, [g.entry], {"FCNTL_AVAILABLE": False, "MSVCRT_AVAILABLE": False})
                 ok = all(verdicts) and (u.id in r0_)
-        ctx.ob(rid, rel, "unlink only in O_EXCL fallback mode", u, ok,
-               "flock locks an inode: deleting the path would let a new process lock a different inode")
+        why_ = "flock locks an inode: deleting the path would let a new process lock a different inode"
+        if not ok:
+            # the other sound protocol: the file is unlinked WHILE the flock is still held (no unlock / close can precede the
+            # unlink) and every acquisition re-validates, after winning the flock, that the inode it locked is still the one the
+            # path names (fstat vs stat, st_ino) - a waiter that won a dead inode retries
+            unlock_ = [n for n in g.calls() if n.callee is not None and n.callee.kind == "prim" and n.callee.name in ("os.close", "fcntl.flock", "msvcrt.locking")]
+            after_unlock = any(u.id in reachable_from(g, d_, NORMAL) for x in unlock_ for d_, l_ in g.succ[x.id] if l_ in NORMAL)
+            revalidated = False
+            for m_ in ctx.prog.cls("file_lock.FileLock").methods.values():
+                mg_ = ctx.cfg(m_)
+                locks_ = [n for n in mg_.calls() if n.callee is not None and n.callee.kind == "prim" and n.callee.name == "fcntl.flock"
+                          and "LOCK_EX" in n.text]
+                for lk in locks_:
+                    reach_ = set().union(*[reachable_from(mg_, d_, NORMAL) for d_, l_ in mg_.succ[lk.id] if l_ in NORMAL]) if mg_.succ[lk.id] else set()
+                    checks_ = [n for n in mg_.calls() if n.id in reach_ and {"os.fstat", "os.stat"} <= ctx.eff.prims_reached(m_, n)]
+                    inl_ = [n for n in mg_.calls() if n.id in reach_ and n.callee is not None and n.callee.kind == "prim" and n.callee.name in ("os.fstat", "os.stat")]
+                    if (checks_ or len({n.callee.name for n in inl_}) == 2) and any(
+                            isinstance(x, ast.Attribute) and x.attr == "st_ino" for f_ in ctx.prog.cls("file_lock.FileLock").methods.values()
+                            for x in ast.walk(f_.node)):
+                        revalidated = True
+            if not after_unlock and revalidated and bool(unlock_):
+                ok = True
+                why_ = "unlinked while the flock is still held, and every acquisition re-validates the locked inode against the path (fstat vs stat)"
+            elif after_unlock and revalidated:
+                why_ = ("the unlink comes AFTER the unlock / close: a waiter that already won and validated the inode loses its file, "
+                        "the next contender creates and locks a fresh inode - two holders")
+        ctx.ob(rid, rel, "unlink only in O_EXCL fallback mode", u, ok, why_)
     ctx.ob(rid, rel, "release unlocks / closes the descriptor", None,
            bool(ctx.calls(rel, prim="os.close")) and (bool(ctx.calls(rel, prim="fcntl.flock")) or bool(ctx.calls(rel, prim="msvcrt.locking"))),
            "LOCK_UN + close", nontrivial=False)
